@@ -358,8 +358,9 @@ func renderTree(t *T, r *vh.RNG, lvl int) []tok {
 // E is a written expression: boolean structure over field filters; a filter is a single value, an in-list
 // (disjunction of values) or a quoted multi-word text (conjunction of words).
 type E struct {
-	op    byte // 'a' single, 'i' in-list, 't' multi-word text, '!', '&', '|'
+	op    byte // 'a' single, 'i' in-list, 't' multi-word text, 'j' in-list of multi-word texts, '!', '&', '|'
 	atoms []int
+	items [][]int // 'j': the words of every item
 	l, r  *E
 }
 
@@ -377,6 +378,20 @@ func (e *E) tree() *T {
 			t = bin(op, t, leaf(a))
 		}
 		return t
+	case 'j':
+		var t *T
+		for _, it := range e.items {
+			x := leaf(it[0])
+			for _, a := range it[1:] {
+				x = bin('&', x, leaf(a))
+			}
+			if t == nil {
+				t = x
+			} else {
+				t = bin('|', t, x)
+			}
+		}
+		return t
 	case '!':
 		return not(e.l.tree())
 	}
@@ -385,7 +400,17 @@ func (e *E) tree() *T {
 
 func randE(r *vh.RNG, size, k int) *E {
 	if size <= 1 {
-		switch r.Intn(6) {
+		switch r.Intn(7) {
+		case 2:
+			e := &E{op: 'j'}
+			for n := 1 + r.Intn(3); n > 0; n-- {
+				var it []int
+				for w := 1 + r.Intn(3); w > 0; w-- {
+					it = append(it, r.Intn(k))
+				}
+				e.items = append(e.items, it)
+			}
+			return e
 		case 0:
 			n := 2 + r.Intn(2)
 			e := &E{op: 'i'}
@@ -503,6 +528,24 @@ func (e *E) render(st style, r *vh.RNG, lvl int) string {
 		} else {
 			s = "fk:" + kw("in", st, r) + "(" + strings.Join(vals, ","+sp(st, r)) + ")"
 		}
+	case 'j':
+		parts := make([]string, len(e.items))
+		for i, it := range e.items {
+			ws := make([]string, len(it))
+			for j, a := range it {
+				ws[j] = fmt.Sprintf("v%d", a)
+			}
+			if st.legacy {
+				parts[i] = `ft:"` + strings.Join(ws, " ") + `"`
+			} else {
+				parts[i] = `"` + strings.Join(ws, " ") + `"`
+			}
+		}
+		if st.legacy {
+			s = "(" + strings.Join(parts, sp(st, r)+kw("or", st, r)+sp(st, r)) + ")"
+		} else {
+			s = "ft:" + kw("in", st, r) + "(" + strings.Join(parts, ","+sp(st, r)) + ")"
+		}
 	case 't':
 		vals := make([]string, len(e.atoms))
 		for i, a := range e.atoms {
@@ -518,7 +561,7 @@ func (e *E) render(st style, r *vh.RNG, lvl int) string {
 		s = e.l.render(st, r, 1) + sp(st, r) + kw("and", st, r) + sp(st, r) + e.r.render(st, r, 2)
 		need = lvl > 1
 	}
-	extra := st.redundant == 8 && e.op != 'a' && e.op != 'i' && e.op != 't'
+	extra := st.redundant == 8 && e.op != 'a' && e.op != 'i' && e.op != 't' && e.op != 'j'
 	if !extra && st.redundant > 0 && st.redundant < 8 && r != nil {
 		extra = r.Chance(st.redundant, 8)
 	}
@@ -575,6 +618,15 @@ func (c *ctx) runTruth(r *vh.RNG) {
 			}
 		}
 	}
+	// directed: in-lists on a text field whose items are several words (each item is a conjunction, the list a disjunction)
+	for _, items := range [][][]int{{{0, 1}}, {{0, 1}, {2}}, {{0}, {1, 2}}, {{0, 1}, {1, 2}}, {{0, 1, 2}, {0}}} {
+		e := &E{op: 'j', items: items}
+		for _, outer := range []*E{e, {op: '!', l: e}, {op: '&', l: e, r: &E{op: 'a', atoms: []int{2}}}} {
+			want := outer.tree().table(3)
+			c.caseTruth("seqql", 3, want, outer.render(style{}, nil, 0), "", "in-text")
+			c.caseTruth("legacy", 3, want, outer.render(style{legacy: true}, nil, 0), "", "in-text")
+		}
+	}
 	for i := 0; i < c.o.Pick(3000, 40000); i++ {
 		k := 2 + r.Intn(3)
 		e := randE(r, 1+r.Intn(12), k)
@@ -624,7 +676,7 @@ var hostileFields = []string{"fk", "ft", "fp", "fo", "fg", "fn", "fe", "fz", "fu
 var hostileValues = []string{"a", "abc", "a*", "*a", "*", "**", "a*b*c", `"a b"`, `'a b'`, "`a b`", `"a\"b"`, `'a\'b'`, `"a\\"`, `"\*"`, `"*"`, `'\x41'`,
 	`"é"`, `"\xff"`, "\xff", "\xc3", "", "ab", "[1, 5]", "(1, 5]", "[1 to 5)", "[a TO b]", "{a TO b}", "[* TO 5]", "[1, *]", "[*, *]", "[a, b, c]",
 	"in(a, b)", "in(a)", "in()", "in(a,)", "in(a b)", "IN('a', `b`, \"c*\")", "a-b", "a_b.c", "-", "--a", "a:b", "", " ", "\"", "'", "`", "\\", "\\*", "a\\ b", "a\\-b",
-	"http://x/y", "@gmail.com", "$", "a$", "(a)", "1e308", "é", "K", "İ", "日本", "a\tb", "a\nb", "# c\n a", "a # c", "a|b", "a,b"}
+	"http://x/y", "@gmail.com", "$", "a$", "(a)", "1e308", "é", "K", "İ", "日本", "a\tb", "a\nb", "`a\rb`", "`\r`", "'a\rb'", "# c\n a", "a # c", "a|b", "a,b"}
 
 var hostileGlue = []string{" and ", " or ", " AND ", " OR ", " not ", " NOT ", " and not ", " ", "", " | ", " | fields ", " | fields except ", ", ", "(", ")", " ( ", " ) ",
 	" # comment\n", "\n", "\t", " | fields a, b", " | fields a | fields b", " | unknown", " |", "| fields", " and (", ") or "}
